@@ -8,6 +8,7 @@ Open Scope list_scope.
 
 Section S.
 Context {A : Type} {O : atom_ops A} (L : atom_laws O) (strict : bool).
+Hypothesis Hguide : @guide A O = None.
 Notation val := (val A).
 Notation wfs := (vwf_gen strict).
 
@@ -39,7 +40,7 @@ Theorem vdiff_self_all : forall v, wfs v = true -> vdiff v v = None.
 Proof.
   induction v as [| a | l IH | l IH] using val_ind'; intros Hw.
   1-2: cbn [vdiff]; rewrite (veqb_refl L); reflexivity.
-  - rewrite vdiff_arr. unfold vdiff_array, vcompute_reorder_indices.
+  - rewrite vdiff_arr. unfold vdiff_array, vchoose. rewrite Hguide. unfold vcompute_reorder_indices.
     rewrite (vreorder_self l 0), map_length, seq_length, Nat.eqb_refl, identity_is_identity.
     cbn [negb orb app].
     pose proof (vdiff_elems_self l l [] eq_refl) as He. cbn [List.length] in He.
